@@ -1,6 +1,10 @@
 import DFV.Lemmas.C20Default
 import DFV.Lemmas.C20Session
 import DFV.Lemmas.C20HeapLight
+import DFV.Lemmas.C20HeapSession
+import DFV.Lemmas.C20SiMax
+import DFV.Lemmas.C20Iff
+import DFV.Lemmas.C20Ex2
 /-!
 # C20 — matplotlib plots draw the field's own numbers at their physical coordinates
 
@@ -19,9 +23,11 @@ stated here as `PixelCovers` (imshow) and in the wording of `vector_at_centres` 
 Property theorems only; helper lemmas, the per-axis contract `AxisCovers`, the label predicate
 `EndsWithLabels`, the hidden-cell description `keptBy` / `auxAt` / `srcIdx`, the input conditions
 `MultOk` / `AuxOk` / `MappingOk` / `ArrowsOk` / `ColourOk`, the frame predicates `Frame` /
-`HFld.On` and the closed example fields `exS`, `exV`, `exOnes`, `exFine` (2×3 mesh on
-`[0,4]×[0,6]`, cell (0,2) invalid), `exHeap`, `exHS`, `exHeapV`, `exHV` used by the non-vacuity
-`example`s live in `DFV/Lemmas/C20{Si,Img,Plot,Keep,Light,Accept,Default,Session,Heap,HeapRef,HeapLight}.lean`.
+`HFld.On`, the exact input conditions `FieldWf` / `VectorCond` / `ArrowsExact` / `ColourExact` /
+`AngleOk` of the refusal equivalences, the request condition `HReqOk` of heap sessions, and the
+closed example fields `exS`, `exV`, `exOnes`, `exFine` (2×3 mesh on `[0,4]×[0,6]`, cell (0,2)
+invalid), `exHeap`, `exHS`, `exHeapV`, `exHV`, `exHeap2`, `exHS2`, `exHReqs` used by the non-vacuity
+`example`s live in `DFV/Lemmas/C20{Si,SiMax,Img,Plot,Keep,Light,Accept,Iff,Default,Session,Heap,HeapRef,HeapLight,HeapDefault,HeapSession,Ex2}.lean`.
 
 Three models: `Model/C20.lean` (argument assembly on fields as VALUES), `Model/C20Session.lean`
 (`MplField.__call__` on a store of keyword-dictionary OBJECTS; histories of calls) and
@@ -29,6 +35,18 @@ Three models: `Model/C20.lean` (argument assembly on fields as VALUES), `Model/C
 writes).  The last two sections of this file prove that the object-level models behave like
 the value model: calls are independent of history, nothing that existed before a call is
 written, and the heap functions return what the value model returns.
+
+Second extension round (end of the file): the default multiplier as a decision over every region
+size (`default_multiplier_iff`, `default_multiplier_ok_iff`, `plot_multiplier_power`,
+`default_extent_span`); refusal as an EQUIVALENCE for every plot kind (`scalar_ok_iff`,
+`contour_ok_iff`, `vector_ok_iff`, `default_ok_iff`, `lightness_ok_iff`); matplotlib's documented
+precondition on `contour` inside the model (`contour_args_ok_iff`, `contour_mpl_ok_iff`); the LAST
+label of a non-injective mapping (`vector_components_last_label`); the heap refinement of the
+default plot and sessions of direct method calls on one heap (`heap_default_refines`,
+`heap_session_independent`, `heap_session_history_irrelevant`, `heap_drawn_cells`); and the
+positional statements from hypotheses on the inputs only (`scalar_plot_from_inputs`,
+`vector_plot_from_inputs`, `contour_plot_from_inputs`, `lightness_plot_from_inputs`,
+`default_plot_from_inputs`).
 -/
 namespace DFV.C20
 open DFV
@@ -1655,5 +1673,971 @@ example : exHS.On exHeap ∧ (∀ i, (exHeap.buf exHS.arr i).isSome) ∧ exHV.On
   injection hvs with hvs
   subst hvs
   decide
+
+
+/-! ## the default multiplier as a decision over every region size -/
+
+/-- **The default multiplier exists exactly for regions whose edges all lie in `[1e-24, 1e27)`**
+(refusal as an equivalence, for EVERY region size — 1e-30 … 1e30 and beyond): if one edge is
+shorter than `1e-24` or at least `1e27` long, `si_multiplier` answers `None` for it and
+`max([... None ...])` raises, so every plot with `multiplier=None` is refused; otherwise the
+multiplier is found. -/
+theorem default_multiplier_ok_iff (f : Fld) (hinv : f.mesh.Inv) :
+    (∃ m, setupMultiplier f none = .ok m) ↔
+      ∀ a, a < f.mesh.region.ndim →
+        p1000 (-8) ≤ f.mesh.region.edge a ∧ f.mesh.region.edge a < p1000 9 := by
+  constructor
+  · rintro ⟨m, h⟩ b hb
+    obtain ⟨⟨_, _, _, _, _, hlt⟩, _, _⟩ := hinv
+    have hedge : 0 < f.mesh.region.edge b := by
+      have := hlt b hb
+      unfold Region.edge
+      linarith
+    simp only [setupMultiplier, siMaxMultiplier] at h
+    obtain ⟨_, hall⟩ := maxOpt_ok _ m h
+    have hbm : siMultiplier (f.mesh.region.edge b) ∈ f.mesh.region.edges.map siMultiplier := by
+      apply List.mem_map.mpr
+      refine ⟨f.mesh.region.edge b, ?_, rfl⟩
+      unfold Region.edges tab
+      exact List.mem_map.mpr ⟨b, List.mem_range.mpr hb, rfl⟩
+    obtain ⟨m', hm', _⟩ := hall _ hbm
+    have := siMultiplier_some_range _ m' (ne_of_gt hedge) hm'
+    rwa [absR_eq_abs, abs_of_pos hedge] at this
+  · exact default_multiplier_exists f hinv
+
+/-- **The default multiplier, characterised** (`si_max_multiplier(region.edges)`; the
+multiplier/prefix rule of the axis labels).  For a well-formed region, `m` is the default
+multiplier if and only if no edge is shorter than `1e-24`, `m` is a power of 1000 of the SI table
+(`m = 1000^k`, `-8 ≤ k ≤ 8`, so it has a prefix), the longest edge measures at least one unit
+(`m ≤ edge` for some axis) and every edge measures less than 1000 units (`edge < 1000·m`).
+In particular the default multiplier is unique and the scaled extent of the longest edge lies in
+`[1, 1000)`. -/
+theorem default_multiplier_iff (f : Fld) (hinv : f.mesh.Inv) (m : Rat) :
+    setupMultiplier f none = .ok m ↔
+      (∀ a, a < f.mesh.region.ndim → p1000 (-8) ≤ f.mesh.region.edge a) ∧
+      (∃ k : Int, -8 ≤ k ∧ k ≤ 8 ∧ m = p1000 k) ∧
+      (∃ a, a < f.mesh.region.ndim ∧ m ≤ f.mesh.region.edge a) ∧
+      ∀ a, a < f.mesh.region.ndim → f.mesh.region.edge a < 1000 * m := by
+  have fwd : ∀ m', setupMultiplier f none = .ok m' →
+      (∃ k : Int, -8 ≤ k ∧ k ≤ 8 ∧ m' = p1000 k) ∧
+      (∃ a, a < f.mesh.region.ndim ∧ m' ≤ f.mesh.region.edge a) ∧
+      ∀ a, a < f.mesh.region.ndim → f.mesh.region.edge a < 1000 * m' := by
+    intro m' h
+    obtain ⟨⟨pre, hpre, _⟩, ⟨a, ha, h1, _⟩, hall⟩ := default_multiplier_decade f hinv m' h
+    obtain ⟨k, hk, hmk⟩ := (mem_siTable pre m').mp hpre
+    have mp : 0 < m' := by rw [hmk]; exact p1000_pos k
+    obtain ⟨k1, k2⟩ := siExps_range pre k hk
+    refine ⟨⟨k, k1, k2, hmk⟩, ⟨a, ha, ?_⟩, fun b hb => ?_⟩
+    · rwa [le_div_iff₀ mp, one_mul] at h1
+    · have := hall b hb
+      rwa [div_lt_iff₀ mp] at this
+  constructor
+  · intro h
+    exact ⟨fun a ha => (((default_multiplier_ok_iff f hinv).mp ⟨m, h⟩) a ha).1, fwd m h⟩
+  · rintro ⟨hlo, ⟨k, k1, k2, rfl⟩, h1, h2⟩
+    have hr : ∀ a, a < f.mesh.region.ndim →
+        p1000 (-8) ≤ f.mesh.region.edge a ∧ f.mesh.region.edge a < p1000 9 := by
+      intro a ha
+      refine ⟨hlo a ha, ?_⟩
+      have := p1000_le (k + 1) 9 (by omega)
+      rw [p1000_succ] at this
+      have := h2 a ha
+      linarith
+    obtain ⟨m', hm'⟩ := default_multiplier_exists f hinv hr
+    obtain ⟨⟨k', _, _, rfl⟩, h1', h2'⟩ := fwd m' hm'
+    have := longest_decade_unique f.mesh.region.ndim f.mesh.region.edge k k' h1 h2 h1' h2'
+    rw [this]
+    exact hm'
+
+/-- **Every successful plot uses a power of 1000 of the SI table**, explicit or default
+multiplier alike, for every plot kind: `multiplier = 1000^k` with `-8 ≤ k ≤ 8`
+(`1e-24 … 1e24`).  (A multiplier outside the table has no prefix for the axis labels.) -/
+theorem plot_multiplier_power (sqrtF : Rat → Rat) (f : Fld) (o : Opts) (calls : List PlotCall)
+    (h : mplScalar f o = .ok calls ∨ mplContour f o = .ok calls ∨ mplVector f o = .ok calls ∨
+      mplDefault f o = .ok calls ∨ mplLightness sqrtF f o = .ok calls) :
+    ∃ (m : Rat) (k : Int), setupMultiplier f o.mult = .ok m ∧ -8 ≤ k ∧ k ≤ 8 ∧ m = p1000 k ∧ 0 < m := by
+  obtain ⟨l1, l2, l3, l4, l5⟩ := labels_eq sqrtF f o calls
+  have fin : (∃ m, setupMultiplier f o.mult = .ok m ∧ EndsWithLabels f.mesh.region m calls) →
+      ∃ (m : Rat) (k : Int), setupMultiplier f o.mult = .ok m ∧ -8 ≤ k ∧ k ≤ 8 ∧ m = p1000 k ∧ 0 < m := by
+    rintro ⟨m, hm, pre, hpre, _⟩
+    obtain ⟨k, hk, hmk⟩ := (mem_siTable pre m).mp hpre
+    obtain ⟨k1, k2⟩ := siExps_range pre k hk
+    exact ⟨m, k, hm, k1, k2, hmk, by rw [hmk]; exact p1000_pos k⟩
+  rcases h with h | h | h | h | h
+  · exact fin (l1 h)
+  · exact fin (l2 h)
+  · exact fin (l3 h)
+  · exact fin (l4 h)
+  · exact fin (l5 h)
+
+/-- **Scaled extent of the default plot.**  With `multiplier=None` a successful scalar plot has
+the extent `[x0, x1, y0, y1] = region / m` with `0 < x1 - x0 < 1000`, `0 < y1 - y0 < 1000` and
+`1 ≤ x1 - x0` or `1 ≤ y1 - y0`: in the units announced by the axis labels the longest edge of the
+region measures between 1 and 1000. -/
+theorem default_extent_span (f : Fld) (o : Opts) (calls : List PlotCall) (hinv : f.mesh.Inv)
+    (hm : o.mult = none) (h : mplScalar f o = .ok calls) :
+    ∃ img x0 x1 y0 y1 lab, calls = [.imshow img "lower" [x0, x1, y0, y1], lab] ∧
+      0 < x1 - x0 ∧ x1 - x0 < 1000 ∧ 0 < y1 - y0 ∧ y1 - y0 < 1000 ∧ (1 ≤ x1 - x0 ∨ 1 ≤ y1 - y0) := by
+  obtain ⟨m, keep, img, lab, hpos, hsm, _, hc, _, _⟩ := scalar_at_position f o calls hinv h
+  obtain ⟨h2, _⟩ := mplScalar_ok_inv f o calls h
+  rw [hm] at hsm
+  obtain ⟨_, _, ⟨a, ha, h1⟩, hall⟩ := (default_multiplier_iff f hinv m).mp hsm
+  obtain ⟨⟨_, _, _, _, _, hlt⟩, _, _⟩ := hinv
+  have hnd : f.mesh.region.pmin.length = 2 := h2
+  have e0 : f.mesh.region.hi 0 / m - f.mesh.region.lo 0 / m = f.mesh.region.edge 0 / m := by
+    unfold Region.edge; ring
+  have e1 : f.mesh.region.hi 1 / m - f.mesh.region.lo 1 / m = f.mesh.region.edge 1 / m := by
+    unfold Region.edge; ring
+  have p0 : 0 < f.mesh.region.edge 0 := by
+    have := hlt 0 (by omega); unfold Region.edge; linarith
+  have p1 : 0 < f.mesh.region.edge 1 := by
+    have := hlt 1 (by omega); unfold Region.edge; linarith
+  refine ⟨img, _, _, _, _, lab, hc, ?_, ?_, ?_, ?_, ?_⟩
+  · rw [e0]; exact div_pos p0 hpos
+  · rw [e0, div_lt_iff₀ hpos]; exact hall 0 (by rw [h2]; omega)
+  · rw [e1]; exact div_pos p1 hpos
+  · rw [e1, div_lt_iff₀ hpos]; exact hall 1 (by rw [h2]; omega)
+  · rw [e0, e1, le_div_iff₀ hpos, le_div_iff₀ hpos, one_mul]
+    have : a = 0 ∨ a = 1 := by rw [h2] at ha; omega
+    rcases this with rfl | rfl
+    · exact Or.inl h1
+    · exact Or.inr h1
+
+/-- Non-vacuity of the multiplier theorems: 40 nm × 60 nm gets `1000^-3` (prefix `n`), the region
+`[0,4]×[0,6]` gets `1000^0`; a region 4 × 6e-27 is refused (`max` of `None` and a number), and so
+is 4 × 1e27. -/
+example : siMaxMultiplier [4/100000000, 6/100000000] = .ok (p1000 (-3)) ∧
+    setupMultiplier exS none = .ok (p1000 0) ∧
+    okB (siMaxMultiplier [4, 6 / 10 ^ 27]) = false ∧ okB (siMaxMultiplier [4, 10 ^ 27]) = false ∧
+    okB (siMaxMultiplier [4 / 10 ^ 24, 10 ^ 26]) = true := by
+  decide +kernel
+
+
+/-! ## refusal as an equivalence: a plot is made if and only if its inputs are well-formed
+
+`FieldWf g` (in `Lemmas/C20Iff.lean`): `g` is a field OBJECT — well-formed mesh, labels and mapping
+the `Field` constructor accepted; an invariant of every field that exists, asked of the
+filter / colour fields that live on other cell counts (they are resampled).  `MultOk`:
+`Lemmas/C20Accept.lean`.  `VectorCond f o`: `vdims=` absent needs a non-empty mapping; `vdims=`
+given has two entries; each of the two arrow labels (`vdims=` or the LAST label the mapping sends
+to the plot axis) is absent / empty or a component label, not both absent; the colour request is
+`use_color=False`, or a one-component `color_field` on a 2-d mesh, or (none given) the field does
+not have three components or a component label is left over. -/
+
+/-- **`field.mpl.scalar` succeeds if and only if** the mesh is 2-d, the field has at most one
+component, the multiplier is acceptable (an SI table entry, or by default every edge in
+`[1e-24, 1e27)`) and the filter field, if given, has one component and lives on a 2-d mesh.
+Every other input is refused. -/
+theorem scalar_ok_iff (f : Fld) (o : Opts) (hinv : f.mesh.Inv)
+    (hwf : ∀ g, o.filter = some g → g.mesh.n = f.mesh.n ∨ FieldWf g) :
+    (∃ calls, mplScalar f o = .ok calls) ↔
+      f.mesh.region.ndim = 2 ∧ f.nvdim ≤ 1 ∧ MultOk f o.mult ∧
+      ∀ g, o.filter = some g → g.nvdim = 1 ∧ g.mesh.region.ndim = 2 := by
+  constructor
+  · rintro ⟨calls, h⟩
+    obtain ⟨h2, hnv, m, hm, hcore⟩ := mplScalar_ok_inv f o calls h
+    obtain ⟨ext, keep, lab, _, hk, hl, _⟩ := scalarCore_ok_inv f o m calls hcore
+    obtain ⟨pre, hp, _⟩ := axisLabels_ok_inv _ m lab hl
+    exact ⟨h2, hnv, (multOk_iff f hinv o.mult).mpr ⟨m, pre, hm, hp⟩,
+      (filterKeep_ok_iff f o hinv h2 hwf).mp ⟨keep, hk⟩⟩
+  · rintro ⟨h2, hnv, hm, hflt⟩
+    exact scalar_accepts f o hinv h2 hnv hm
+      (fun g hg => auxOk_of_wf f g (hflt g hg).1 (hflt g hg).2 (hwf g hg))
+
+/-- **`field.mpl.contour` hands its arguments to matplotlib if and only if** the mesh is 2-d, the
+field has exactly one component, multiplier and filter are acceptable. -/
+theorem contour_ok_iff (f : Fld) (o : Opts) (hinv : f.mesh.Inv)
+    (hwf : ∀ g, o.filter = some g → g.mesh.n = f.mesh.n ∨ FieldWf g) :
+    (∃ calls, mplContour f o = .ok calls) ↔
+      f.mesh.region.ndim = 2 ∧ f.nvdim = 1 ∧ MultOk f o.mult ∧
+      ∀ g, o.filter = some g → g.nvdim = 1 ∧ g.mesh.region.ndim = 2 := by
+  constructor
+  · rintro ⟨calls, h⟩
+    obtain ⟨h2, hnv, m, keep, lab, hm, hk, hl, _⟩ := mplContour_ok_inv f o calls h
+    obtain ⟨pre, hp, _⟩ := axisLabels_ok_inv _ m lab hl
+    exact ⟨h2, hnv, (multOk_iff f hinv o.mult).mpr ⟨m, pre, hm, hp⟩,
+      (filterKeep_ok_iff f o hinv h2 hwf).mp ⟨keep, hk⟩⟩
+  · rintro ⟨h2, hnv, hm, hflt⟩
+    exact contour_accepts f o hinv h2 hnv hm
+      (fun g hg => auxOk_of_wf f g (hflt g hg).1 (hflt g hg).2 (hwf g hg))
+
+/-- **matplotlib's requirement on `contour(X, Y, Z)`** (`contourArgsOk`, the documented
+precondition: `Z` at least `(2, 2)`, `len(X)` = columns of `Z`, `len(Y)` = rows of `Z`) **is met by
+the arguments handed over if and only if the mesh has at least two cells along both axes.**  The
+length conditions always hold; only the `(2, 2)` requirement can fail. -/
+theorem contour_args_ok_iff (f : Fld) (o : Opts) (calls : List PlotCall) (hinv : f.mesh.Inv)
+    (h : mplContour f o = .ok calls) :
+    ∃ X Y Z lab, calls = [.contour X Y Z, lab] ∧
+      X.length = Z.shape.getD 1 0 ∧ Y.length = Z.shape.getD 0 0 ∧ Z.shape.length = 2 ∧
+      (contourArgsOk X Y Z = true ↔ 2 ≤ f.mesh.nAt 0 ∧ 2 ≤ f.mesh.nAt 1) ∧
+      (callsAccepted calls = true ↔ 2 ≤ f.mesh.nAt 0 ∧ 2 ≤ f.mesh.nAt 1) := by
+  obtain ⟨m, keep, X, Y, Z, lab, _, _, _, hc, hX, hY, _, _, hZ, _⟩ := contour_grid f o calls hinv h
+  have hlab : ∃ xl yl, lab = .labels xl yl := by
+    obtain ⟨_, _, m', _, lab', _, _, hl, hc'⟩ := mplContour_ok_inv f o calls h
+    obtain ⟨pre, _, hlab⟩ := axisLabels_ok_inv _ m' lab' hl
+    rw [hc] at hc'
+    injection hc' with _ hc'
+    injection hc' with hc' _
+    exact ⟨_, _, hc'.trans hlab⟩
+  obtain ⟨xl, yl, rfl⟩ := hlab
+  have hargs : contourArgsOk X Y Z = true ↔ 2 ≤ f.mesh.nAt 0 ∧ 2 ≤ f.mesh.nAt 1 := by
+    unfold contourArgsOk
+    rw [hZ, hX, hY]
+    simp only [List.length_cons, List.length_nil, List.getD_cons_zero, List.getD_cons_succ,
+      Bool.and_eq_true, decide_eq_true_eq]
+    simp only [true_and, and_true]
+    exact ⟨fun h => ⟨h.2, h.1⟩, fun h => ⟨h.2, h.1⟩⟩
+  refine ⟨X, Y, Z, _, hc, by rw [hZ, hX]; rfl, by rw [hZ, hY]; rfl, by rw [hZ]; rfl, hargs, ?_⟩
+  rw [hc]
+  simp only [callsAccepted, Bool.and_true]
+  exact hargs
+
+/-- **`field.mpl.contour` as a whole — including matplotlib's refusal — succeeds if and only if**
+the inputs are well-formed AND the mesh has at least two cells along both axes
+(`mplContourMpl`: the arguments are assembled, then `ax.contour` raises `TypeError` when `Z` is
+not at least `(2, 2)`). -/
+theorem contour_mpl_ok_iff (f : Fld) (o : Opts) (hinv : f.mesh.Inv)
+    (hwf : ∀ g, o.filter = some g → g.mesh.n = f.mesh.n ∨ FieldWf g) :
+    (∃ calls, mplContourMpl f o = .ok calls) ↔
+      f.mesh.region.ndim = 2 ∧ f.nvdim = 1 ∧ MultOk f o.mult ∧
+      (∀ g, o.filter = some g → g.nvdim = 1 ∧ g.mesh.region.ndim = 2) ∧
+      2 ≤ f.mesh.nAt 0 ∧ 2 ≤ f.mesh.nAt 1 := by
+  unfold mplContourMpl
+  constructor
+  · rintro ⟨calls, h⟩
+    cases hc : mplContour f o with
+    | error e => rw [hc] at h; cases h
+    | ok cs =>
+      rw [hc] at h
+      simp only [] at h
+      obtain ⟨a, b, c, d⟩ := (contour_ok_iff f o hinv hwf).mp ⟨cs, hc⟩
+      obtain ⟨_, _, _, _, _, _, _, _, _, hacc⟩ := contour_args_ok_iff f o cs hinv hc
+      by_cases hac : callsAccepted cs = true
+      · exact ⟨a, b, c, d, hacc.mp hac⟩
+      · rw [if_neg hac] at h; cases h
+  · rintro ⟨a, b, c, d, e⟩
+    obtain ⟨cs, hc⟩ := (contour_ok_iff f o hinv hwf).mpr ⟨a, b, c, d⟩
+    obtain ⟨_, _, _, _, _, _, _, _, _, hacc⟩ := contour_args_ok_iff f o cs hinv hc
+    rw [hc]
+    simp only []
+    rw [if_pos (hacc.mpr e)]
+    exact ⟨cs, rfl⟩
+
+/-- **`field.mpl.vector` succeeds if and only if** the mesh is 2-d, the multiplier is acceptable
+and the label / colour arguments satisfy `VectorCond` (see the section header): refusals are
+exactly a non-2-d mesh, a field without mapping and without `vdims=`, `vdims=` of the wrong
+length, a label that is not a component label, both directions absent, a colour field of the
+wrong dimension, and three components with nothing left over for the colour. -/
+theorem vector_ok_iff (f : Fld) (o : Opts) (hinv : f.mesh.Inv)
+    (hwf : ∀ g, o.aux = some g → g.mesh.n = f.mesh.n ∨ FieldWf g) :
+    (∃ calls, mplVector f o = .ok calls) ↔
+      f.mesh.region.ndim = 2 ∧ MultOk f o.mult ∧ VectorCond f o := by
+  constructor
+  · rintro ⟨calls, h⟩
+    obtain ⟨h2, hne, m, hm, hcore⟩ := mplVector_ok_inv f o calls h
+    obtain ⟨keep, vd, ax, ay, c, lab, _, hvd, hax, hay, hnn, hcol, hl, _⟩ := vectorCore_ok_inv f o m calls hcore
+    obtain ⟨pre, hp, _⟩ := axisLabels_ok_inv _ m lab hl
+    obtain ⟨hlen, rfl⟩ := (vectorVdims_ok_iff f o vd).mp hvd
+    refine ⟨h2, (multOk_iff f hinv o.mult).mpr ⟨m, pre, hm, hp⟩, ?_, hlen, ⟨?_, ?_, ?_⟩, ?_⟩
+    · intro hnone hnil
+      rw [hnone, hnil] at hne
+      simp at hne
+    · exact (arrowIdx_ok_iff f _).mp ⟨ax, hax⟩
+    · exact (arrowIdx_ok_iff f _).mp ⟨ay, hay⟩
+    · rintro ⟨n0, n1⟩
+      rw [(arrowIdx_isNone_iff f _ ax hax).mpr n0, (arrowIdx_isNone_iff f _ ay hay).mpr n1] at hnn
+      simp at hnn
+    · exact (colourOf_ok_iff f o _ hinv h2 hwf).mp ⟨c, hcol⟩
+  · rintro ⟨h2, hm, hne, hlen, ⟨hx, hy, hboth⟩, hcol⟩
+    obtain ⟨m, pre, hm, hp⟩ := setupMultiplier_ok f hinv o.mult hm
+    have hvd := (vectorVdims_ok_iff f o _).mpr ⟨hlen, rfl⟩
+    obtain ⟨ax, hax⟩ := (arrowIdx_ok_iff f _).mpr hx
+    obtain ⟨ay, hay⟩ := (arrowIdx_ok_iff f _).mpr hy
+    obtain ⟨C, hC⟩ := (colourOf_ok_iff f o _ hinv h2 hwf).mpr hcol
+    obtain ⟨keep, hk, _⟩ := filterKeep_valid f h2
+    have hnn : (ax.isNone && ay.isNone) = false := by
+      cases hb : (ax.isNone && ay.isNone) with
+      | false => rfl
+      | true =>
+        simp only [Bool.and_eq_true] at hb
+        exact absurd ⟨(arrowIdx_isNone_iff f _ ax hax).mp hb.1, (arrowIdx_isNone_iff f _ ay hay).mp hb.2⟩ hboth
+    have hne' : (o.vdimsArg.isNone && f.vmap.isEmpty) = false := by
+      cases hv : o.vdimsArg with
+      | some l => rfl
+      | none =>
+        have := hne hv
+        simp [this]
+    unfold mplVector
+    rw [if_neg (by simpa using h2), hne']
+    simp only [Bool.false_eq_true, if_false, hm, vectorCore, hk, hvd, hax, hay, hC, axisLabels, hp, hnn]
+    exact ⟨_, rfl⟩
+
+/-- **`field.mpl()` succeeds if and only if** the mesh is 2-d, the multiplier is acceptable, the
+field has one, two or three components, and: the filter of `scalar_kw` is acceptable (one and
+three components), the vector conditions hold (two and three components), and for three
+components a label is left over for the scalar image. -/
+theorem default_ok_iff (f : Fld) (o : Opts) (hinv : f.mesh.Inv)
+    (hwfF : ∀ g, o.filter = some g → g.mesh.n = f.mesh.n ∨ FieldWf g)
+    (hwfA : ∀ g, o.aux = some g → g.mesh.n = f.mesh.n ∨ FieldWf g) :
+    (∃ calls, mplDefault f o = .ok calls) ↔
+      f.mesh.region.ndim = 2 ∧ MultOk f o.mult ∧ 1 ≤ f.nvdim ∧ f.nvdim ≤ 3 ∧
+      (f.nvdim ≠ 2 → ∀ g, o.filter = some g → g.nvdim = 1 ∧ g.mesh.region.ndim = 2) ∧
+      (2 ≤ f.nvdim → VectorCond f o) ∧
+      (f.nvdim = 3 → leftover f (inplaneVdims f) ≠ []) := by
+  have hfo : ∀ g, some (filterOf f o) = some g → g.mesh.n = f.mesh.n ∨ FieldWf g := by
+    intro g hg
+    injection hg with hg
+    subst hg
+    cases ho : o.filter with
+    | none => simp only [filterOf, ho, Option.getD_none]; exact Or.inl rfl
+    | some g' => simp only [filterOf, ho, Option.getD_some]; exact hwfF g' ho
+  have hfo2 : f.mesh.region.ndim = 2 → ((∀ g, some (filterOf f o) = some g → g.nvdim = 1 ∧ g.mesh.region.ndim = 2) ↔
+      ∀ g, o.filter = some g → g.nvdim = 1 ∧ g.mesh.region.ndim = 2) := by
+    intro h2
+    cases ho : o.filter with
+    | none =>
+      simp only [filterOf, ho, Option.getD_none]
+      constructor
+      · intro _ g hg; cases hg
+      · intro _ g hg; injection hg with hg; subst hg; exact ⟨rfl, h2⟩
+    | some g' => simp only [filterOf, ho, Option.getD_some]
+  constructor
+  · rintro ⟨calls, h⟩
+    obtain ⟨h2, m, lab, hm, hl, hcases⟩ := mplDefault_ok_inv f o calls h
+    obtain ⟨pre, hp, _⟩ := axisLabels_ok_inv _ m lab hl
+    have hmult := (multOk_iff f hinv o.mult).mpr ⟨m, pre, hm, hp⟩
+    rcases hcases with ⟨h1, cs, hcs, _⟩ | ⟨hn2, cv, hcv, _⟩ | ⟨h3, c, cs, cv, hthird, hcs, hcv, _⟩
+    · obtain ⟨_, _, _, hflt⟩ := (scalar_ok_iff f _ hinv hfo).mp ⟨cs, hcs⟩
+      exact ⟨h2, hmult, by omega, by omega, fun _ => (hfo2 h2).mp hflt, fun hc => by omega, fun hc => by omega⟩
+    · obtain ⟨_, _, hvc⟩ := (vector_ok_iff f { o with mult := some m } hinv hwfA).mp ⟨cv, hcv⟩
+      exact ⟨h2, hmult, by omega, by omega, fun hc => absurd hn2 hc, fun _ => hvc, fun hc => by omega⟩
+    · obtain ⟨_, _, _, hflt⟩ := (scalar_ok_iff (compField f c) _ hinv hfo).mp ⟨cs, hcs⟩
+      obtain ⟨_, _, hvc⟩ := (vector_ok_iff f { o with mult := some m } hinv hwfA).mp ⟨cv, hcv⟩
+      exact ⟨h2, hmult, by omega, by omega, fun _ => (hfo2 h2).mp hflt, fun _ => hvc,
+        fun _ => (thirdComp_ok_iff f _ o.pick).mp ⟨c, hthird⟩⟩
+  · rintro ⟨h2, hm, hn1, hn3, hflt, hvec, hleft⟩
+    obtain ⟨m, pre, hsm, hp⟩ := setupMultiplier_ok f hinv o.mult hm
+    have hm' : MultOk f (some m) := ⟨pre, rsiPrefix_some m pre hp⟩
+    unfold mplDefault
+    rw [if_neg (by simpa using h2)]
+    simp only [hsm, axisLabels, hp]
+    by_cases h1 : f.nvdim = 1
+    · rw [if_pos h1]
+      obtain ⟨cs, hcs⟩ := (scalar_ok_iff f { o with mult := some m, filter := some (filterOf f o) } hinv hfo).mpr
+        ⟨h2, by omega, hm', (hfo2 h2).mpr (hflt (by omega))⟩
+      rw [hcs]
+      exact ⟨_, rfl⟩
+    · rw [if_neg h1]
+      obtain ⟨cv, hcv⟩ := (vector_ok_iff f { o with mult := some m } hinv hwfA).mpr ⟨h2, hm', hvec (by omega)⟩
+      by_cases hn2 : f.nvdim = 2
+      · rw [if_pos hn2, hcv]
+        exact ⟨_, rfl⟩
+      · rw [if_neg hn2, if_pos (by omega)]
+        obtain ⟨c, hc⟩ := (thirdComp_ok_iff f _ o.pick).mpr (hleft (by omega))
+        obtain ⟨cs, hcs⟩ := (scalar_ok_iff (compField f c) { o with mult := some m, filter := some (filterOf f o) }
+          hinv hfo).mpr ⟨h2, by show 1 ≤ 1; omega, hm', (hfo2 h2).mpr (hflt (by omega))⟩
+        rw [hc]
+        simp only [hcs, hcv]
+        exact ⟨_, rfl⟩
+
+
+/-- **Which component drives the arrows when several labels point to one axis: the LAST.**
+`Field._r_dim_mapping` inverts `vdim_mapping` with a dict comprehension, so of several labels
+mapped to the same spatial dimension the one that comes last in the mapping wins.  With no
+`vdims=`: the horizontal arrow component is the component labelled `l`, where `(l, dims[0])` is
+the last entry of the mapping pointing to `dims[0]` (`vmap = pre ++ (l, dims[0]) :: post`, nothing
+in `post` points to `dims[0]`), `l` non-empty; when nothing points to `dims[0]`, or the last such
+label is empty, the horizontal components are zeros.  Likewise vertically with `dims[1]`. -/
+theorem vector_components_last_label (f : Fld) (o : Opts) (calls : List PlotCall)
+    (hinv : f.mesh.Inv) (hvd : o.vdimsArg = none) (h : mplVector f o = .ok calls) :
+    ∃ X Y U V C lab, calls = [.quiver X Y U V C, lab] ∧
+      ∀ (a : Nat) (A : NDA (Option Rat)), (a = 0 ∧ A = U) ∨ (a = 1 ∧ A = V) →
+        (∃ l k vs pre post, f.vmap = pre ++ (l, f.mesh.region.dims.getD a "") :: post ∧
+            (∀ p ∈ post, p.2 ≠ f.mesh.region.dims.getD a "") ∧ l ≠ "" ∧
+            f.vdims = some vs ∧ vs.getD k "" = l ∧
+            ∀ r c, A.get [r, c] =
+              if f.valid.get [c, r] then some ((f.data.get [c, r]).getD k 0) else none) ∨
+        (((∀ p ∈ f.vmap, p.2 ≠ f.mesh.region.dims.getD a "") ∨
+            ∃ pre post, f.vmap = pre ++ ("", f.mesh.region.dims.getD a "") :: post ∧
+              ∀ p ∈ post, p.2 ≠ f.mesh.region.dims.getD a "") ∧
+          ∀ r c, A.get [r, c] = some 0) := by
+  obtain ⟨h2, _, m, _, hcore⟩ := mplVector_ok_inv f o calls h
+  obtain ⟨keep, vd, ax, ay, c, lab, hk, hvds, hax, hay, _, _, _, hc⟩ := vectorCore_ok_inv f o m calls hcore
+  have hn : f.mesh.n.length = 2 := by rw [hinv.2.1, h2]
+  obtain ⟨keep', hk', hget⟩ := filterKeep_valid f h2
+  rw [hk'] at hk
+  injection hk with hk
+  subst hk
+  have hvd' : vd = inplaneVdims f := by
+    unfold vectorVdims at hvds
+    rw [hvd] at hvds
+    injection hvds with hvds
+    exact hvds.symm
+  subst hvd'
+  have side : ∀ (a : Nat) (ai : Option Nat),
+      arrowIdx f (rDimLast f (f.mesh.region.dims.getD a "")) = .ok ai →
+      (∃ l k vs pre post, f.vmap = pre ++ (l, f.mesh.region.dims.getD a "") :: post ∧
+          (∀ p ∈ post, p.2 ≠ f.mesh.region.dims.getD a "") ∧ l ≠ "" ∧
+          f.vdims = some vs ∧ vs.getD k "" = l ∧
+          ∀ r c, (arrowArr f keep' ai).get [r, c] =
+            if f.valid.get [c, r] then some ((f.data.get [c, r]).getD k 0) else none) ∨
+      (((∀ p ∈ f.vmap, p.2 ≠ f.mesh.region.dims.getD a "") ∨
+          ∃ pre post, f.vmap = pre ++ ("", f.mesh.region.dims.getD a "") :: post ∧
+            ∀ p ∈ post, p.2 ≠ f.mesh.region.dims.getD a "") ∧
+        ∀ r c, (arrowArr f keep' ai).get [r, c] = some 0) := by
+    intro a ai hai
+    cases ai with
+    | none =>
+      right
+      refine ⟨?_, fun r c => arrowArr_none_get f hn keep' r c⟩
+      rcases arrowIdx_none_inv f _ hai with hnone | hemp
+      · exact Or.inl ((rDimLast_none_iff f _).mp hnone)
+      · exact Or.inr ((rDimLast_some_iff f _ "").mp hemp)
+    | some k =>
+      left
+      obtain ⟨s, vs, hs, hne, hvs, hks⟩ := arrowIdx_some_inv f _ k hai
+      obtain ⟨pre, post, hv, hall⟩ := (rDimLast_some_iff f _ s).mp hs
+      refine ⟨s, k, vs, pre, post, hv, hall, hne, hvs, hks, fun r c => ?_⟩
+      rw [arrowArr_some_get f hn, hget]
+  refine ⟨_, _, _, _, c, lab, hc, ?_⟩
+  rintro a A (⟨rfl, rfl⟩ | ⟨rfl, rfl⟩)
+  · exact side 0 ax (by simpa [inplaneVdims] using hax)
+  · exact side 1 ay (by simpa [inplaneVdims] using hay)
+
+/-- Non-vacuity of `vector_components_last_label`: with the mapping `a ↦ x, b ↦ x, c ↦ y` the
+horizontal arrows use `b` (component 1), the last label pointing to `x`, not `a`. -/
+example : rDimLast { exV with vmap := [("a", "x"), ("b", "x"), ("c", "y")] } "x" = some "b" ∧
+    okB (mplVector { exV with vmap := [("a", "x"), ("b", "x"), ("c", "y")] } { useColor := false }) = true ∧
+    arrowIdx { exV with vmap := [("a", "x"), ("b", "x"), ("c", "y")] } (some "b") = .ok (some 1) := by
+  decide +kernel
+
+/-! ## the default plot on the heap, sessions of direct calls -/
+
+/-- **The default plot `mpl()` with in-place writes refines the value model** (the composition
+missing from `heap_plots_refine`): `scalar` of the FRESH component field `getattr(field, label)`
+(three components; of the field itself for one) with the default filter built from the plotted
+field in `__call__`, followed by `vector` on the heap the scalar part left behind, hands over
+exactly what `mplDefault` computes from the field as a value — success or the same error. -/
+theorem heap_default_refines (h : AHeap) (f : HFld) (o : HOpts) (hinv : f.mesh.Inv) (hf : f.On h)
+    (hnum : ∀ i, (h.buf f.arr i).isSome) (hflt : ∀ g, o.filter = some g → g.On h)
+    (haux : ∀ g, o.aux = some g → g.On h) (hlab : ∀ vs, f.vdims = some vs → vs.length ≤ f.nvdim) :
+    (defaultH h f o).2 = mplDefault (f.abs h) (o.abs h) :=
+  defaultH_refines h f o hinv hf hnum hflt haux hlab
+
+/-- **Sessions of direct method calls are independent of their history** (induction over histories
+of any length; the analogue of `session_calls_independent` for `field.mpl.scalar(...)`,
+`.contour(...)`, `.vector(...)`, `.lightness(...)` and `field.mpl(...)`, which share no
+dictionaries but share the ARRAYS of the fields they are given).  If every request of the history
+is well-formed on the initial heap (`HReqOk`: field objects on the heap holding numbers), then the
+`k`-th answer of the session is what the `k`-th request gets from the value model on the fields as
+they were BEFORE the session, there is one answer per request, every buffer that existed before
+the session is unchanged after it, and every field reads the same. -/
+theorem heap_session_independent (sqrtF : Rat → Rat) (h : AHeap) (rs : List HReq)
+    (ok : ∀ r ∈ rs, HReqOk h r) :
+    (runHeapSession sqrtF h rs).2 = rs.map (specH sqrtF h) ∧
+    (runHeapSession sqrtF h rs).2.length = rs.length ∧
+    Frame h (runHeapSession sqrtF h rs).1 ∧
+    ∀ g : HFld, g.On h → g.abs (runHeapSession sqrtF h rs).1 = g.abs h := by
+  obtain ⟨a, b⟩ := runHeapSession_spec sqrtF h rs ok h (Frame.refl h)
+  exact ⟨a, runHeapSession_length sqrtF h rs, b, fun g hg => abs_frame _ _ g b hg⟩
+
+/-- **Two histories of direct calls, same answer**: what a request gets does not depend on which
+(well-formed) direct calls were served before it on the same arrays. -/
+theorem heap_session_history_irrelevant (sqrtF : Rat → Rat) (h : AHeap) (h1 h2 : List HReq) (r : HReq)
+    (ok1 : ∀ q ∈ h1 ++ [r], HReqOk h q) (ok2 : ∀ q ∈ h2 ++ [r], HReqOk h q) :
+    (runHeapSession sqrtF h (h1 ++ [r])).2.getLast? = (runHeapSession sqrtF h (h2 ++ [r])).2.getLast? := by
+  rw [(heap_session_independent sqrtF h _ ok1).1, (heap_session_independent sqrtF h _ ok2).1,
+    List.map_append, List.map_append]
+  simp only [List.map_cons, List.map_nil, List.getLast?_append, List.getLast?_singleton, Option.some_or]
+
+/-- Non-vacuity of the heap session theorems: five direct calls of all kinds on the example vector
+field and a scalar field sharing one heap (the scalar field doubling as filter and lightness field
+of later calls); the requests are well-formed, every call succeeds, the heap grows, and the four
+input buffers are where they were. -/
+example : (∀ r ∈ exHReqs, HReqOk exHeap2 r) ∧
+    (runHeapSession (fun q => q) exHeap2 exHReqs).2.map okB = [true, true, true, true, true] ∧
+    4 < (runHeapSession (fun q => q) exHeap2 exHReqs).1.length := by
+  refine ⟨exHReqs_ok, by decide +kernel, by decide +kernel⟩
+
+
+/-! ## the property from hypotheses on the INPUTS only
+
+The positional theorems above take the success of the call as a hypothesis; composed with the
+acceptance theorems they need hypotheses on the inputs only. -/
+
+/-- **Scalar plot, from the inputs.**  For every field with at most one component on a well-formed
+2-d mesh, acceptable multiplier and filter (`MultOk`, `AuxOk`; same or another resolution), the
+call succeeds and: one `imshow` with `origin="lower"` and extent `region / m`, `m` a positive SI
+table entry announced by the axis labels; image of shape `(n₁, n₀)`; pixel `[j][i]` shows the value
+of cell `(i, j)` exactly when the cell is valid and non-zero in the filter (NaN otherwise); and for
+EVERY physical point of the region the unique pixel covering it (imshow contract) is the pixel of
+the cell containing the point. -/
+theorem scalar_plot_from_inputs (f : Fld) (o : Opts) (hinv : f.mesh.Inv) (h2 : f.mesh.region.ndim = 2)
+    (hnv : f.nvdim ≤ 1) (hm : MultOk f o.mult) (hflt : ∀ g, o.filter = some g → AuxOk f g) :
+    ∃ calls m img lab, mplScalar f o = .ok calls ∧ 0 < m ∧ setupMultiplier f o.mult = .ok m ∧
+      calls = [.imshow img "lower"
+        [f.mesh.region.lo 0 / m, f.mesh.region.hi 0 / m, f.mesh.region.lo 1 / m, f.mesh.region.hi 1 / m],
+        lab] ∧
+      EndsWithLabels f.mesh.region m calls ∧ img.shape = [f.mesh.nAt 1, f.mesh.nAt 0] ∧
+      (∀ i j, i < f.mesh.nAt 0 → j < f.mesh.nAt 1 →
+        img.get [j, i] = if keptBy f o.filter [i, j] then some ((f.data.get [i, j]).getD 0 0) else none) ∧
+      ∀ x y, f.mesh.region.lo 0 ≤ x * m ∧ x * m ≤ f.mesh.region.hi 0 →
+        f.mesh.region.lo 1 ≤ y * m ∧ y * m ≤ f.mesh.region.hi 1 →
+        f.mesh.indexAx 0 (x * m) < f.mesh.nAt 0 ∧ f.mesh.indexAx 1 (y * m) < f.mesh.nAt 1 ∧
+        PixelCovers (f.mesh.nAt 1) (f.mesh.nAt 0)
+          [f.mesh.region.lo 0 / m, f.mesh.region.hi 0 / m, f.mesh.region.lo 1 / m, f.mesh.region.hi 1 / m]
+          (f.mesh.indexAx 1 (y * m)) (f.mesh.indexAx 0 (x * m)) x y ∧
+        ∀ r c, r < f.mesh.nAt 1 → c < f.mesh.nAt 0 →
+          PixelCovers (f.mesh.nAt 1) (f.mesh.nAt 0)
+            [f.mesh.region.lo 0 / m, f.mesh.region.hi 0 / m, f.mesh.region.lo 1 / m, f.mesh.region.hi 1 / m]
+            r c x y →
+          r = f.mesh.indexAx 1 (y * m) ∧ c = f.mesh.indexAx 0 (x * m) := by
+  obtain ⟨calls, hc⟩ := scalar_accepts f o hinv h2 hnv hm hflt
+  obtain ⟨m, keep, img, lab, hpos, hsm, _, hcalls, hshape, hposn⟩ := scalar_at_position f o calls hinv hc
+  obtain ⟨img', ext', lab', hcalls', hpix⟩ := scalar_hides_exactly f o calls hinv
+    (fun g hg => auxOk_geom f g hinv (hflt g hg)) hc
+  obtain ⟨m', hsm', hends⟩ := (labels_eq (fun q => q) f o calls).1 hc
+  have hmm : m' = m := by rw [hsm] at hsm'; injection hsm' with e; exact e.symm
+  subst hmm
+  have himg : img' = img := by
+    rw [hcalls] at hcalls'
+    injection hcalls' with e _
+    injection e with e _ _
+    exact e.symm
+  subst himg
+  refine ⟨calls, m', img', lab, hc, hpos, hsm, hcalls, hends, hshape, hpix, fun x y hx hy => ?_⟩
+  obtain ⟨a, b, c, d, _⟩ := hposn x y hx hy
+  exact ⟨a, b, c, d⟩
+
+/-- **Vector plot, from the inputs.**  For every field on a well-formed 2-d mesh with an
+acceptable multiplier whose label / colour arguments satisfy `VectorCond` (colour fields on other
+cell counts being field objects), the call succeeds and: one `quiver(X, Y, U, V[, C])`; `X`, `Y`
+are the cell centres divided by the positive SI multiplier `m` announced by the axis labels;
+`U`, `V` have shape `(n₁, n₀)`; and the arrow of cell `(i, j)` is hidden (a NaN component) if and
+only if the cell is invalid. -/
+theorem vector_plot_from_inputs (f : Fld) (o : Opts) (hinv : f.mesh.Inv) (h2 : f.mesh.region.ndim = 2)
+    (hm : MultOk f o.mult) (hcond : VectorCond f o)
+    (hwf : ∀ g, o.aux = some g → g.mesh.n = f.mesh.n ∨ FieldWf g) :
+    ∃ calls m X Y U V C lab, mplVector f o = .ok calls ∧ 0 < m ∧ setupMultiplier f o.mult = .ok m ∧
+      calls = [.quiver X Y U V C, lab] ∧ EndsWithLabels f.mesh.region m calls ∧
+      X.length = f.mesh.nAt 0 ∧ Y.length = f.mesh.nAt 1 ∧
+      (∀ c, c < f.mesh.nAt 0 →
+        X.getD c 0 = (f.mesh.region.lo 0 + ((c : Rat) + 1/2) * f.mesh.cellAt 0) / m) ∧
+      (∀ r, r < f.mesh.nAt 1 →
+        Y.getD r 0 = (f.mesh.region.lo 1 + ((r : Rat) + 1/2) * f.mesh.cellAt 1) / m) ∧
+      U.shape = [f.mesh.nAt 1, f.mesh.nAt 0] ∧ V.shape = [f.mesh.nAt 1, f.mesh.nAt 0] ∧
+      ∀ i j, ((U.get [j, i]).isNone ∨ (V.get [j, i]).isNone) ↔ f.valid.get [i, j] = false := by
+  obtain ⟨calls, hc⟩ := (vector_ok_iff f o hinv hwf).mpr ⟨h2, hm, hcond⟩
+  obtain ⟨m, X, Y, U, V, C, lab, hpos, hsm, hcalls, hX, hY, hXc, hYc, hU, hV⟩ := vector_at_centres f o calls hc
+  obtain ⟨X', Y', U', V', C', lab', hcalls', hhid⟩ := vector_hides_exactly_invalid f o calls hinv hc
+  obtain ⟨m', hsm', hends⟩ := (labels_eq (fun q => q) f o calls).2.2.1 hc
+  have hmm : m' = m := by rw [hsm] at hsm'; injection hsm' with e; exact e.symm
+  subst hmm
+  rw [hcalls] at hcalls'
+  injection hcalls' with e _
+  injection e with _ _ eU eV _
+  subst eU eV
+  exact ⟨calls, m', X, Y, U, V, C, lab, hc, hpos, hsm, hcalls, hends, hX, hY, hXc, hYc, hU, hV, hhid⟩
+
+/-- **Contour plot, from the inputs**, matplotlib's precondition included.  For every
+one-component field on a well-formed 2-d mesh with at least 2 × 2 cells, acceptable multiplier and
+filter, the call as a whole succeeds (`mplContourMpl`) with one `contour(X, Y, Z)`: `X`, `Y` the
+cell centres divided by the positive multiplier, `Z[j][i]` the value of cell `(i, j)` exactly when
+the cell is valid and non-zero in the filter, NaN otherwise. -/
+theorem contour_plot_from_inputs (f : Fld) (o : Opts) (hinv : f.mesh.Inv) (h2 : f.mesh.region.ndim = 2)
+    (hnv : f.nvdim = 1) (hm : MultOk f o.mult) (hflt : ∀ g, o.filter = some g → AuxOk f g)
+    (hn0 : 2 ≤ f.mesh.nAt 0) (hn1 : 2 ≤ f.mesh.nAt 1) :
+    ∃ calls m X Y Z lab, mplContourMpl f o = .ok calls ∧ 0 < m ∧ setupMultiplier f o.mult = .ok m ∧
+      calls = [.contour X Y Z, lab] ∧ contourArgsOk X Y Z = true ∧
+      (∀ c, c < f.mesh.nAt 0 →
+        X.getD c 0 = (f.mesh.region.lo 0 + ((c : Rat) + 1/2) * f.mesh.cellAt 0) / m) ∧
+      (∀ r, r < f.mesh.nAt 1 →
+        Y.getD r 0 = (f.mesh.region.lo 1 + ((r : Rat) + 1/2) * f.mesh.cellAt 1) / m) ∧
+      ∀ i j, i < f.mesh.nAt 0 → j < f.mesh.nAt 1 →
+        Z.get [j, i] = if keptBy f o.filter [i, j] then some ((f.data.get [i, j]).getD 0 0) else none := by
+  obtain ⟨calls, hc⟩ := contour_accepts f o hinv h2 hnv hm hflt
+  obtain ⟨m, keep, X, Y, Z, lab, hpos, hsm, _, hcalls, _, _, hXc, hYc, _, _⟩ := contour_grid f o calls hinv hc
+  obtain ⟨X', Y', Z', lab', hcalls', hpix⟩ := contour_hides_exactly f o calls hinv
+    (fun g hg => auxOk_geom f g hinv (hflt g hg)) hc
+  obtain ⟨X'', Y'', Z'', lab'', hcalls'', _, _, _, hargs, hacc⟩ := contour_args_ok_iff f o calls hinv hc
+  rw [hcalls] at hcalls' hcalls''
+  injection hcalls' with e _
+  injection e with _ _ eZ
+  subst eZ
+  injection hcalls'' with e _
+  injection e with eX eY eZ
+  subst eX eY eZ
+  refine ⟨calls, m, X, Y, Z, lab, ?_, hpos, hsm, hcalls, hargs.mpr ⟨hn0, hn1⟩, hXc, hYc, hpix⟩
+  unfold mplContourMpl
+  rw [hc]
+  simp only []
+  rw [if_pos (hacc.mpr ⟨hn0, hn1⟩)]
+
+/-- Non-vacuity of the three theorems above: the example fields meet their hypotheses (the scalar
+example has 2 × 3 cells, a filter on 4 × 3 cells is acceptable; the vector example satisfies
+`VectorCond` with its mapping and with explicit labels). -/
+example : MultOk exS none ∧ AuxOk exS exFine ∧ 2 ≤ exS.mesh.nAt 0 ∧ 2 ≤ exS.mesh.nAt 1 ∧
+    okB (mplContourMpl exS { filter := some exFine }) = true ∧
+    okB (mplContourMpl { exS with mesh := { exMesh with n := [1, 3] } } {}) = false ∧
+    okB (mplContour { exS with mesh := { exMesh with n := [1, 3] } } {}) = true := by
+  refine ⟨?_, ⟨rfl, rfl, Or.inr ⟨mesh_inv_of_invB _ (by decide +kernel), by decide +kernel⟩⟩,
+    by decide +kernel, by decide +kernel, by decide +kernel, by decide +kernel, by decide +kernel⟩
+  show ∀ a, a < exS.mesh.region.ndim → _
+  decide +kernel
+
+
+/-- **`field.mpl.lightness` succeeds if and only if** the mesh is 2-d, the field has at most three
+components, multiplier, filter and lightness field are acceptable, for two and three components
+both plot axes have a label in the mapping and these are component labels (`AngleOk`), and for
+three components without a lightness field a component label is left over for the lightness. -/
+theorem lightness_ok_iff (sqrtF : Rat → Rat) (f : Fld) (o : Opts) (hinv : f.mesh.Inv)
+    (hwfF : ∀ g, o.filter = some g → g.mesh.n = f.mesh.n ∨ FieldWf g)
+    (hwfA : ∀ g, o.aux = some g → g.mesh.n = f.mesh.n ∨ FieldWf g) :
+    (∃ calls, mplLightness sqrtF f o = .ok calls) ↔
+      f.mesh.region.ndim = 2 ∧ f.nvdim ≤ 3 ∧ MultOk f o.mult ∧
+      (∀ g, o.filter = some g → g.nvdim = 1 ∧ g.mesh.region.ndim = 2) ∧
+      (∀ g, o.aux = some g → g.nvdim = 1 ∧ g.mesh.region.ndim = 2) ∧
+      (2 ≤ f.nvdim → AngleOk f) ∧
+      (f.nvdim = 3 → o.aux = none → leftover f (inplaneVdims f) ≠ []) := by
+  by_cases h2 : f.mesh.region.ndim = 2
+  swap
+  · constructor
+    · rintro ⟨calls, h⟩
+      rw [(refuse_not_2d sqrtF f o h2).2.2.2.2] at h
+      cases h
+    · rintro ⟨h, _⟩; exact absurd h h2
+  have hkeep := filterKeep_ok_iff f o hinv h2 hwfF
+  -- the final stage with a derived lightness field on the mesh of `f`
+  have derived : ∀ (D : Fld) (hue : List Nat → Hue) (d0 : NDA Rat), D.mesh = f.mesh → D.nvdim = 1 →
+      ((∃ calls, lightCore f { o with aux := some D } hue d0 (filterOf f o) = .ok calls) ↔
+        MultOk f o.mult ∧ ∀ g, o.filter = some g → g.nvdim = 1 ∧ g.mesh.region.ndim = 2) := by
+    intro D hue d0 hD1 hD2
+    rw [lightCore_ok_iff f { o with aux := some D } hue d0 _ hinv h2
+      (fun g hg => by injection hg with hg; subst hg; exact Or.inl (by rw [hD1])), hkeep]
+    constructor
+    · rintro ⟨a, _, c⟩; exact ⟨a, c⟩
+    · rintro ⟨a, c⟩
+      refine ⟨a, fun g hg => ?_, c⟩
+      injection hg with hg; subst hg
+      exact ⟨hD2, by rw [hD1]; exact h2⟩
+  have given : ∀ (hue : List Nat → Hue) (d0 : NDA Rat),
+      ((∃ calls, lightCore f o hue d0 (filterOf f o) = .ok calls) ↔
+        MultOk f o.mult ∧ (∀ g, o.aux = some g → g.nvdim = 1 ∧ g.mesh.region.ndim = 2) ∧
+        ∀ g, o.filter = some g → g.nvdim = 1 ∧ g.mesh.region.ndim = 2) := by
+    intro hue d0
+    rw [lightCore_ok_iff f o hue d0 _ hinv h2 hwfA, hkeep]
+  unfold mplLightness
+  rw [if_neg (by simpa using h2)]
+  by_cases hn2 : f.nvdim = 2
+  · rw [if_pos hn2]
+    cases hxy : angleComps f with
+    | error e =>
+      simp only []
+      constructor
+      · rintro ⟨_, h⟩; cases h
+      · rintro ⟨_, _, _, _, _, hang, _⟩
+        obtain ⟨xy, hxy'⟩ := (angleComps_ok_iff f).mpr (hang (by omega))
+        rw [hxy] at hxy'; cases hxy'
+    | ok xy =>
+      simp only []
+      have hang : AngleOk f := (angleComps_ok_iff f).mp ⟨xy, hxy⟩
+      cases haux : o.aux with
+      | none =>
+        simp only [Option.getD_none]
+        refine (derived (normField sqrtF f) _ _ rfl rfl).trans ?_
+        constructor
+        · rintro ⟨a, b⟩
+          exact ⟨h2, by omega, a, b, fun g hg => (nomatch hg), fun _ => hang, fun h3 => by omega⟩
+        · rintro ⟨_, _, a, b, _⟩; exact ⟨a, b⟩
+      | some g =>
+        simp only [Option.getD_some]
+        have e : ({ o with aux := some g } : Opts) = o := opts_with_aux o g haux
+        rw [e, given, haux]
+        constructor
+        · rintro ⟨a, b, c⟩
+          exact ⟨h2, by omega, a, c, b, fun _ => hang, fun _ h => (nomatch h)⟩
+        · rintro ⟨_, _, a, c, b, _⟩; exact ⟨a, b, c⟩
+  · rw [if_neg hn2]
+    by_cases hn3 : f.nvdim = 3
+    · rw [if_pos hn3]
+      cases haux : o.aux with
+      | some g =>
+        simp only []
+        cases hxy : angleComps f with
+        | error e =>
+          simp only []
+          constructor
+          · rintro ⟨_, h⟩; cases h
+          · rintro ⟨_, _, _, _, _, hang, _⟩
+            obtain ⟨xy, hxy'⟩ := (angleComps_ok_iff f).mpr (hang (by omega))
+            rw [hxy] at hxy'; cases hxy'
+        | ok xy =>
+          simp only []
+          have hang : AngleOk f := (angleComps_ok_iff f).mp ⟨xy, hxy⟩
+          rw [given, haux]
+          constructor
+          · rintro ⟨a, b, c⟩
+            exact ⟨h2, by omega, a, c, b, fun _ => hang, fun _ h => (nomatch h)⟩
+          · rintro ⟨_, _, a, c, b, _⟩; exact ⟨a, b, c⟩
+      | none =>
+        simp only []
+        by_cases hm : f.vmap.isEmpty = true
+        · rw [if_pos hm]
+          constructor
+          · rintro ⟨_, h⟩; cases h
+          · rintro ⟨_, _, _, _, _, hang, _⟩
+            have := angleOk_vmap_ne f (hang (by omega))
+            rw [hm] at this; cases this
+        · rw [if_neg hm]
+          cases hc : thirdComp f (inplaneVdims f) o.pick with
+          | error e =>
+            simp only []
+            constructor
+            · rintro ⟨_, h⟩; cases h
+            · rintro ⟨_, _, _, _, _, _, hleft⟩
+              obtain ⟨c, hc'⟩ := (thirdComp_ok_iff f _ o.pick).mpr (hleft hn3 trivial)
+              rw [hc] at hc'; cases hc'
+          | ok c =>
+            simp only []
+            have hleft := (thirdComp_ok_iff f _ o.pick).mp ⟨c, hc⟩
+            cases hxy : angleComps f with
+            | error e =>
+              simp only []
+              constructor
+              · rintro ⟨_, h⟩; cases h
+              · rintro ⟨_, _, _, _, _, hang, _⟩
+                obtain ⟨xy, hxy'⟩ := (angleComps_ok_iff f).mpr (hang (by omega))
+                rw [hxy] at hxy'; cases hxy'
+            | ok xy =>
+              simp only []
+              have hang : AngleOk f := (angleComps_ok_iff f).mp ⟨xy, hxy⟩
+              refine (derived (compField f c) _ _ rfl rfl).trans ?_
+              constructor
+              · rintro ⟨a, b⟩
+                exact ⟨h2, by omega, a, b, fun g hg => (nomatch hg), fun _ => hang, fun _ _ => hleft⟩
+              · rintro ⟨_, _, a, b, _⟩; exact ⟨a, b⟩
+    · rw [if_neg hn3]
+      by_cases hn4 : f.nvdim > 3
+      · rw [if_pos hn4]
+        constructor
+        · rintro ⟨_, h⟩; cases h
+        · rintro ⟨_, h, _⟩; omega
+      · rw [if_neg hn4, given]
+        constructor
+        · rintro ⟨a, b, c⟩
+          exact ⟨h2, by omega, a, c, b, fun h => by omega, fun h => by omega⟩
+        · rintro ⟨_, _, a, c, b, _⟩; exact ⟨a, b, c⟩
+
+/-- Non-vacuity of `lightness_ok_iff`: the example vector field satisfies `AngleOk` and has a
+label left over; stripped of the label `c` in its mapping nothing changes, stripped of the mapping
+to `y` it is refused. -/
+example : AngleOk exV ∧ leftover exV (inplaneVdims exV) ≠ [] ∧
+    okB (mplLightness (fun q => q) exV {}) = true ∧
+    okB (mplLightness (fun q => q) { exV with vmap := [("b", "x")] } {}) = false :=
+  ⟨⟨"b", "a", 1, 0, by decide +kernel, by decide +kernel, by decide +kernel, by decide +kernel⟩,
+   by decide +kernel, by decide +kernel, by decide +kernel⟩
+
+
+/-- **Drawn cells = valid AND filter, stated on the buffers** (scalar and contour, the code-shaped
+heap functions with their in-place NaN writes; filter on the cell counts of the field).  Whenever
+`field.mpl.scalar` / `field.mpl.contour` succeeds on the heap, entry `[j][i]` of the image / of `Z`
+handed to matplotlib is the entry `[i, j, 0]` of the field's own array buffer if the validity
+buffer holds `1` at `[i, j]` and — when a `filter_field` is given — the filter's array buffer is
+non-zero at `[i, j, 0]`; it is NaN otherwise.  (Composition of `heap_plots_refine` with
+`scalar_hides_exactly` / `contour_hides_exactly`.) -/
+theorem heap_drawn_cells (h : AHeap) (f : HFld) (o : HOpts) (calls : List PlotCall)
+    (hinv : f.mesh.Inv) (hf : f.On h) (hnum : ∀ i, (h.buf f.arr i).isSome) (hnv : f.nvdim = 1)
+    (hflt : ∀ g, o.filter = some g → g.On h ∧ g.mesh.n = f.mesh.n) :
+    ((scalarH h f o).2 = .ok calls →
+      ∃ img ext lab, calls = [.imshow img "lower" ext, lab] ∧
+        ∀ i j, i < f.mesh.nAt 0 → j < f.mesh.nAt 1 →
+          img.get [j, i] =
+            if f.validAt h [i, j] = true ∧ ∀ g, o.filter = some g → (h.buf g.arr [i, j, 0]).getD 0 ≠ 0
+            then h.buf f.arr [i, j, 0] else none) ∧
+    ((contourH h f o).2 = .ok calls →
+      ∃ X Y Z lab, calls = [.contour X Y Z, lab] ∧
+        ∀ i j, i < f.mesh.nAt 0 → j < f.mesh.nAt 1 →
+          Z.get [j, i] =
+            if f.validAt h [i, j] = true ∧ ∀ g, o.filter = some g → (h.buf g.arr [i, j, 0]).getD 0 ≠ 0
+            then h.buf f.arr [i, j, 0] else none) := by
+  have hgeo : ∀ g, (o.abs h).filter = some g → AuxGeom (f.abs h) g := by
+    intro g hg
+    cases ho : o.filter with
+    | none => simp [HOpts.abs, ho] at hg
+    | some g' =>
+      simp only [HOpts.abs, ho, Option.map_some, Option.some.injEq] at hg
+      subst hg
+      exact Or.inl (hflt g' ho).2
+  -- the kept cells, on the buffers
+  have kept : ∀ (keepOk : ∃ keep, filterKeep (f.abs h) (filterOf (f.abs h) (o.abs h)) = .ok keep) (i j : Nat),
+      (if keptBy (f.abs h) (o.abs h).filter [i, j] = true
+        then some (((f.abs h).data.get [i, j]).getD 0 0) else none) =
+      if f.validAt h [i, j] = true ∧ ∀ g, o.filter = some g → (h.buf g.arr [i, j, 0]).getD 0 ≠ 0
+      then h.buf f.arr [i, j, 0] else none := by
+    intro keepOk i j
+    have hval : some (((f.abs h).data.get [i, j]).getD 0 0) = h.buf f.arr [i, j, 0] := by
+      rw [abs_data_one h f hnv]
+      have := hnum [i, j, 0]
+      cases hb : h.buf f.arr [i, j, 0] with
+      | none => rw [hb] at this; cases this
+      | some v => rfl
+    rw [hval]
+    unfold keptBy
+    show (if ((f.validAt h [i, j]) && _) = true then _ else _) = _
+    cases ho : o.filter with
+    | none =>
+      simp only [HOpts.abs, ho, Option.map_none, Bool.and_true]
+      by_cases hv : f.validAt h [i, j] = true
+      · rw [if_pos hv, if_pos ⟨hv, fun g hg => nomatch hg⟩]
+      · rw [if_neg hv, if_neg (fun hc => hv hc.1)]
+    | some g =>
+      obtain ⟨keep, hk⟩ := keepOk
+      have hfo : filterOf (f.abs h) (o.abs h) = g.abs h := by
+        unfold filterOf HOpts.abs; rw [ho]; rfl
+      rw [hfo] at hk
+      obtain ⟨g1, _, _⟩ := filterKeep_ok_inv (f.abs h) (g.abs h) keep hk
+      have hsame : (g.abs h).mesh.n = (f.abs h).mesh.n := (hflt g ho).2
+      simp only [HOpts.abs, ho, Option.map_some]
+      unfold auxAt
+      rw [if_pos hsame, abs_data_one h g g1]
+      by_cases hv : f.validAt h [i, j] = true
+      · by_cases hz : (h.buf g.arr [i, j, 0]).getD 0 = 0
+        · rw [if_neg (by simp [hv, hz]), if_neg (fun hc => hc.2 g rfl hz)]
+        · rw [if_pos (by simp [hv, hz]), if_pos ⟨hv, fun g' hg' => by injection hg' with e; subst e; exact hz⟩]
+      · rw [if_neg (by simp [hv]), if_neg (fun hc => hv hc.1)]
+  constructor
+  · intro hc
+    rw [scalarH_refines h f o hinv hf hnum (fun g hg => (hflt g hg).1) hnv] at hc
+    obtain ⟨_, _, m, _, hcore⟩ := mplScalar_ok_inv _ _ calls hc
+    obtain ⟨_, keep, _, _, hk, _, _⟩ := scalarCore_ok_inv _ _ m calls hcore
+    obtain ⟨img, ext, lab, hcalls, hpix⟩ := scalar_hides_exactly (f.abs h) (o.abs h) calls hinv hgeo hc
+    refine ⟨img, ext, lab, hcalls, fun i j hi hj => ?_⟩
+    rw [hpix i j hi hj]
+    exact kept ⟨keep, hk⟩ i j
+  · intro hc
+    rw [contourH_refines h f o hinv hf hnum (fun g hg => (hflt g hg).1)] at hc
+    obtain ⟨_, _, m, keep, _, _, hk, _, _⟩ := mplContour_ok_inv _ _ calls hc
+    obtain ⟨X, Y, Z, lab, hcalls, hpix⟩ := contour_hides_exactly (f.abs h) (o.abs h) calls hinv hgeo hc
+    refine ⟨X, Y, Z, lab, hcalls, fun i j hi hj => ?_⟩
+    rw [hpix i j hi hj]
+    exact kept ⟨keep, hk⟩ i j
+
+/-- Non-vacuity of `heap_drawn_cells`: the scalar example on the two-field heap with ITSELF as
+filter (its value 0 hides a valid cell). -/
+example : exHS2.On exHeap2 ∧ exHS2.nvdim = 1 ∧
+    okB (scalarH exHeap2 exHS2 { filter := some exHS2 }).2 = true ∧
+    okB (contourH exHeap2 exHS2 { filter := some exHS2 }).2 = true := by
+  refine ⟨⟨by decide, by decide⟩, rfl, by decide +kernel, by decide +kernel⟩
+
+
+/-! ## non-vacuity on a non-trivial input
+
+`Lemmas/C20Ex2.lean`: a 30 nm × 40 ns region with dimensions `a`, `t` and units `m`, `s`, 3 × 4 cells,
+periodic along `a`, with a subregion; a scalar field with two holes in its validity, a
+2-component field with a swapped mapping and one hole, a filter on 6 × 2 cells. -/
+
+/-- The hypotheses of `scalar_plot_from_inputs`, `contour_plot_from_inputs`, `scalar_ok_iff`,
+`vector_plot_from_inputs` / `vector_ok_iff`, `lightness_ok_iff` and `default_multiplier_iff` hold
+on the nanometre example; its default multiplier is `1000^-3`, the labels read `a (nm)` and
+`t (ns)`, the filter on 6 × 2 cells hides the valid cell `(0, 0)` and keeps `(1, 0)`, the hole
+`(0, 1)` is hidden, and the horizontal arrows of the vector field use component `q` (number 1),
+the one mapped to `a`. -/
+example : exNmS.mesh.Inv ∧ exNmS.mesh.region.ndim = 2 ∧ MultOk exNmS none ∧ AuxOk exNmS exNmFlt ∧
+    FieldWf exNmFlt ∧ 2 ≤ exNmS.mesh.nAt 0 ∧ 2 ≤ exNmS.mesh.nAt 1 ∧
+    setupMultiplier exNmS none = .ok (p1000 (-3)) ∧
+    (match axisLabels exNmRegion (p1000 (-3)) with
+      | .ok (.labels xl yl) => xl == "a (nm)" && yl == "t (ns)"
+      | _ => false) = true ∧
+    keptBy exNmS (some exNmFlt) [0, 0] = false ∧ keptBy exNmS (some exNmFlt) [1, 0] = true ∧
+    keptBy exNmS (some exNmFlt) [0, 1] = false ∧ exNmS.valid.get [0, 0] = true ∧
+    VectorCond exNmV {} ∧ AngleOk exNmV ∧ inplaneVdims exNmV = [some "q", some "p"] ∧
+    arrowIdx exNmV (some "q") = .ok (some 1) ∧
+    okB (mplScalar exNmS { filter := some exNmFlt }) = true ∧
+    okB (mplContourMpl exNmS { filter := some exNmFlt }) = true ∧
+    okB (mplVector exNmV {}) = true ∧ okB (mplLightness (fun q => q) exNmV {}) = true ∧
+    okB (mplDefault exNmV { useColor := false }) = true := by
+  have hflt : exNmFlt.mesh.Inv := mesh_inv_of_invB _ (by decide +kernel)
+  refine ⟨exNmMesh_inv, rfl, ?_, ⟨rfl, rfl, Or.inr ⟨hflt, by decide +kernel⟩⟩, ⟨hflt, by decide +kernel⟩,
+    by decide +kernel, by decide +kernel, by decide +kernel, by decide +kernel, by decide +kernel,
+    by decide +kernel, by decide +kernel, by decide +kernel, ?_, ?_, by decide +kernel, by decide +kernel,
+    by decide +kernel, by decide +kernel, by decide +kernel, by decide +kernel, by decide +kernel⟩
+  · show ∀ a, a < exNmS.mesh.region.ndim → _
+    decide +kernel
+  · refine ⟨fun _ => by decide, fun l hl => (nomatch hl), ⟨?_, ?_, ?_⟩, Or.inr (Or.inr ⟨rfl, Or.inl (by decide)⟩)⟩
+    · exact Or.inr ⟨"q", ["p", "q"], by decide +kernel, by decide, rfl, by decide⟩
+    · exact Or.inr ⟨"p", ["p", "q"], by decide +kernel, by decide, rfl, by decide⟩
+    · rintro ⟨h, _⟩
+      rcases h with h | h
+      · exact absurd h (by decide +kernel)
+      · exact absurd h (by decide +kernel)
+  · exact ⟨"q", "p", 1, 0, by decide +kernel, by decide +kernel, by decide +kernel, by decide +kernel⟩
+
+
+/-- **Lightness plot, from the inputs.**  Under the exact input conditions of `lightness_ok_iff`
+the call succeeds and everything `lightness_any_nvdim` says holds: one `imshow` with
+`origin="lower"`, extent `region / m` for the positive SI multiplier `m` announced by the labels,
+shape `(n₁, n₀)`, pixel `[j][i]` opaque exactly when cell `(i, j)` is valid and non-zero in the
+filter, and the pixel covering any physical point is the pixel of the cell containing it. -/
+theorem lightness_plot_from_inputs (sqrtF : Rat → Rat) (f : Fld) (o : Opts) (hinv : f.mesh.Inv)
+    (hwfF : ∀ g, o.filter = some g → g.mesh.n = f.mesh.n ∨ FieldWf g)
+    (hwfA : ∀ g, o.aux = some g → g.mesh.n = f.mesh.n ∨ FieldWf g)
+    (h2 : f.mesh.region.ndim = 2) (hnv : f.nvdim ≤ 3) (hm : MultOk f o.mult)
+    (hflt : ∀ g, o.filter = some g → g.nvdim = 1 ∧ g.mesh.region.ndim = 2)
+    (haux : ∀ g, o.aux = some g → g.nvdim = 1 ∧ g.mesh.region.ndim = 2)
+    (hang : 2 ≤ f.nvdim → AngleOk f)
+    (hleft : f.nvdim = 3 → o.aux = none → leftover f (inplaneVdims f) ≠ []) :
+    ∃ calls m img lab, mplLightness sqrtF f o = .ok calls ∧ 0 < m ∧ setupMultiplier f o.mult = .ok m ∧
+      calls = [.imshowHL img "lower"
+        [f.mesh.region.lo 0 / m, f.mesh.region.hi 0 / m, f.mesh.region.lo 1 / m, f.mesh.region.hi 1 / m],
+        lab] ∧
+      EndsWithLabels f.mesh.region m calls ∧ img.shape = [f.mesh.nAt 1, f.mesh.nAt 0] ∧
+      (∀ i j, i < f.mesh.nAt 0 → j < f.mesh.nAt 1 →
+        (img.get [j, i]).isSome = keptBy f o.filter [i, j]) ∧
+      ∀ x y, f.mesh.region.lo 0 ≤ x * m ∧ x * m ≤ f.mesh.region.hi 0 →
+        f.mesh.region.lo 1 ≤ y * m ∧ y * m ≤ f.mesh.region.hi 1 →
+        PixelCovers (f.mesh.nAt 1) (f.mesh.nAt 0)
+          [f.mesh.region.lo 0 / m, f.mesh.region.hi 0 / m, f.mesh.region.lo 1 / m, f.mesh.region.hi 1 / m]
+          (f.mesh.indexAx 1 (y * m)) (f.mesh.indexAx 0 (x * m)) x y ∧
+        (∀ r c, r < f.mesh.nAt 1 → c < f.mesh.nAt 0 →
+          PixelCovers (f.mesh.nAt 1) (f.mesh.nAt 0)
+            [f.mesh.region.lo 0 / m, f.mesh.region.hi 0 / m, f.mesh.region.lo 1 / m, f.mesh.region.hi 1 / m]
+            r c x y →
+          r = f.mesh.indexAx 1 (y * m) ∧ c = f.mesh.indexAx 0 (x * m)) := by
+  obtain ⟨calls, hc⟩ := (lightness_ok_iff sqrtF f o hinv hwfF hwfA).mpr ⟨h2, hnv, hm, hflt, haux, hang, hleft⟩
+  obtain ⟨m, img, lab, a, b, c, d, e, g, k⟩ := lightness_any_nvdim sqrtF f o calls hinv
+    (fun g hg => auxGeom_of_wf f g hinv (hwfF g hg)) hc
+  exact ⟨calls, m, img, lab, hc, a, b, c, d, e, g, k⟩
+
+/-- **Default plot, from the inputs.**  Under the exact input conditions of `default_ok_iff`
+`field.mpl()` succeeds and everything `default_plot_object` says holds: one multiplier for
+everything drawn, the labels announcing it, the scalar image of the field (one component) or of
+the component not mapped to a plot axis (three), hidden exactly in the invalid-or-filtered cells,
+followed by the vector plot (two and three components). -/
+theorem default_plot_from_inputs (f : Fld) (o : Opts) (hinv : f.mesh.Inv)
+    (hwfF : ∀ g, o.filter = some g → g.mesh.n = f.mesh.n ∨ FieldWf g)
+    (hwfA : ∀ g, o.aux = some g → g.mesh.n = f.mesh.n ∨ FieldWf g)
+    (h2 : f.mesh.region.ndim = 2) (hm : MultOk f o.mult) (hn1 : 1 ≤ f.nvdim) (hn3 : f.nvdim ≤ 3)
+    (hflt : f.nvdim ≠ 2 → ∀ g, o.filter = some g → g.nvdim = 1 ∧ g.mesh.region.ndim = 2)
+    (hvec : 2 ≤ f.nvdim → VectorCond f o)
+    (hleft : f.nvdim = 3 → leftover f (inplaneVdims f) ≠ []) :
+    ∃ calls m lab, mplDefault f o = .ok calls ∧ 0 < m ∧ setupMultiplier f o.mult = .ok m ∧
+      EndsWithLabels f.mesh.region m calls ∧ axisLabels f.mesh.region m = .ok lab ∧
+      ((f.nvdim = 1 ∧ ∃ img lab', calls = [.imshow img "lower"
+            [f.mesh.region.lo 0 / m, f.mesh.region.hi 0 / m, f.mesh.region.lo 1 / m, f.mesh.region.hi 1 / m],
+            lab', lab] ∧ img.shape = [f.mesh.nAt 1, f.mesh.nAt 0] ∧
+          ∀ i j, i < f.mesh.nAt 0 → j < f.mesh.nAt 1 →
+            img.get [j, i] = if keptBy f o.filter [i, j] then some ((f.data.get [i, j]).getD 0 0) else none) ∨
+       (f.nvdim = 2 ∧ ∃ cv, mplVector f { o with mult := some m } = .ok cv ∧ calls = cv ++ [lab]) ∨
+       (f.nvdim = 3 ∧ ∃ c img lab' cv, thirdComp f (inplaneVdims f) o.pick = .ok c ∧
+          mplVector f { o with mult := some m } = .ok cv ∧
+          calls = [.imshow img "lower"
+            [f.mesh.region.lo 0 / m, f.mesh.region.hi 0 / m, f.mesh.region.lo 1 / m, f.mesh.region.hi 1 / m],
+            lab'] ++ cv ++ [lab] ∧ img.shape = [f.mesh.nAt 1, f.mesh.nAt 0] ∧
+          ∀ i j, i < f.mesh.nAt 0 → j < f.mesh.nAt 1 →
+            img.get [j, i] = if keptBy f o.filter [i, j] then some ((f.data.get [i, j]).getD c 0) else none)) := by
+  obtain ⟨calls, hc⟩ := (default_ok_iff f o hinv hwfF hwfA).mpr ⟨h2, hm, hn1, hn3, hflt, hvec, hleft⟩
+  obtain ⟨m, lab, a, b, c, d, e⟩ := default_plot_object f o calls hinv
+    (fun g hg => auxGeom_of_wf f g hinv (hwfF g hg)) hc
+  exact ⟨calls, m, lab, hc, a, b, c, d, e⟩
 
 end DFV.C20
